@@ -46,6 +46,10 @@ def toName : Sx → Option Name
   | .atom "f2" => some (.f 2)
   | .atom "ok" => some .true_
   | .atom "colon" => some .colon
+  | .atom "sbin" => some .sbIn
+  | .atom "sbout" => some .sbOut
+  | .atom "xtin" => some .xtIn
+  | .atom "xtpath" => some .xtPath
   | _ => none
 
 mutual
